@@ -134,10 +134,16 @@ def decimals(args):
     rows = []
     expected = []
     n = 0
+    eps = Fr(1, 10**9)     # one nanosecond: consecutive arrivals that differ in the 10th digit, a tick boundary between them
     for k in range(lo, hi):
-        for f, cnt in ((Fr(0), 1 + (k % 3)), (Fr(1, 4), k % 2), (Fr(1, 2), (k + 1) % 2 if k % 5 == 0 else 0), (Fr(3, 4), 1 if k % 7 == 0 else 0)):
+        close = ((Fr(0) - eps * tps, 1 if k % 6 == 1 and k > 0 else 0), (Fr(0), 1 + (k % 3)), (eps * tps, 1 if k % 6 in (1, 2) else 0))
+        for f, cnt in close + ((Fr(1, 4), k % 2), (Fr(1, 2), (k + 1) % 2 if k % 5 == 0 else 0), (Fr(3, 4), 1 if k % 7 == 0 else 0)):
+            if tps * eps * 4 >= 1 and f not in (Fr(0), Fr(1, 4), Fr(1, 2), Fr(3, 4)):
+                continue
             if k % 4 == 3 and f == 0:
                 continue   # gaps: some ticks have no on-grid arrival
+            if (Fr(k) + f) < 0:
+                continue
             x = (Fr(k) + f) / tps
             text = dec_text(x)
             if text is None:
